@@ -538,6 +538,35 @@ func (g *bindGen) lay(s string) string {
 	return s[:i] + g.r.pick([]string{"\n", "\t", "\r\n", " -- c\n", " /* c */ ", "\n-- $T.x 'q\n", " /* ' */", " -- \x00 $Person.id 'q\n", " /* \x00 $M.k1 */ "}) + s[i+1:]
 }
 
+// manyTypes: a statement that names exactly k types (k around the powers of two), one output each, with
+// exactly those samples.
+func (g *bindGen) manyTypes() bindCase {
+	r := g.r
+	k := []int{7, 8, 9, 15, 16, 17}[r.intn(6)]
+	names := append([]string{}, goodStructs...)
+	for i := len(names) - 1; i > 0; i-- {
+		j := r.intn(i + 1)
+		names[i], names[j] = names[j], names[i]
+	}
+	seen := map[string]bool{}
+	var outs []string
+	c := bindCase{}
+	for _, n := range names {
+		if seen[n] || len(outs) == k {
+			continue
+		}
+		seen[n] = true
+		tags := zooTags(reflect.TypeOf(zooByName(n)))
+		if len(tags) == 0 {
+			continue
+		}
+		outs = append(outs, "x AS &"+n+"."+tags[0])
+		c.samples = append(c.samples, zooByName(n))
+	}
+	c.query = "SELECT " + strings.Join(outs, ", ") + " FROM t"
+	return c
+}
+
 // thoroughTier: the deep tier also probes sizes around 2^14 .. 2^16.
 var thoroughTier = os.Getenv("VERIF_TIER") == "thorough"
 
@@ -577,6 +606,9 @@ func (g *bindGen) next1() bindCase {
 	if r.chance(1, 100) {
 		return g.wideSelect()
 	}
+	if r.chance(1, 80) {
+		return g.manyTypes()
+	}
 	p := &stmtPlan{types: map[string]bool{}, ins: map[string]bool{}}
 	var b strings.Builder
 	hasInsert := false
@@ -588,6 +620,11 @@ func (g *bindGen) next1() bindCase {
 		for i := 0; i < n; i++ {
 			if i > 0 {
 				b.WriteString(g.lay(", "))
+			}
+			if r.chance(1, 10) {
+				// an ordinary SQL alias after a call that contains an input: no output expression here
+				in := g.inputExpr(p)
+				b.WriteString(r.pick([]string{"coalesce(nick, " + in + ") AS display, ", "CAST(" + in + " AS INTEGER) AS factor, ", "max(" + in + ") AS top, ", "(lower(" + in + "), b) AS x, "}))
 			}
 			b.WriteString(g.outputExpr(p))
 		}
